@@ -250,6 +250,9 @@ pub enum TyperError {
     /// A property was declared twice
     PipelinePropertyDuplicate(SourceLocation),
 
+    /// A pipeline with the same name was already declared
+    PipelineNameDuplicate(String, SourceLocation),
+
     /// A graphics state was used in a non-graphics pipeline
     PipelinePropertyRequiresGraphicsPipeline(SourceLocation),
 
@@ -1091,6 +1094,11 @@ impl CompileError for TyperExternalError {
             }
             TyperError::PipelinePropertyDuplicate(loc) => w.write_message(
                 &|f| write!(f, "property declared multiple times"),
+                *loc,
+                Severity::Error,
+            ),
+            TyperError::PipelineNameDuplicate(name, loc) => w.write_message(
+                &|f| write!(f, "pipeline '{}' declared multiple times", name),
                 *loc,
                 Severity::Error,
             ),
